@@ -114,7 +114,9 @@ pub fn check_net(scratch: &Scratch, net: &Net, ni: usize, tier: Tier, st: &mut S
     let gshort = dir.join("geometries_short.txt");
     write_geoms(&gshort, m - 1);
     // plain for odd nets, gzip for even ones (the readers differ)
-    let utext = spec.uuids.as_ref().unwrap().iter().map(|u| format!("{}\n", u)).collect::<String>();
+    // every third table has rows ending in CR LF (a table written on another system): the identifiers are the rows without it
+    let eol = if ni % 3 == 0 { "\r\n" } else { "\n" };
+    let utext = spec.uuids.as_ref().unwrap().iter().map(|u| format!("{}{}", u, eol)).collect::<String>();
     let ufile = if ni % 2 == 0 {
         let p = dir.join("uuids.txt.gz");
         let f = std::fs::File::create(&p).expect("create");
